@@ -53,7 +53,7 @@ IN_MEDIA = {"import-in-media": '@import "m.css";', "charset-in-media": '@charset
 
 def strip_body(body):
     """without the unknown at-rules the adapter injected into a declaration block (keyword @kw)"""
-    return [d for d in body if not (d["k"].startswith("?") and d.get("text", "").lstrip().startswith("@kw"))]
+    return [d for d in body if not ((d["k"].startswith("?") or d["k"] == "unknown") and d.get("text", "").lstrip().startswith("@kw"))]
 
 
 def strip_injected(dom):
